@@ -73,7 +73,15 @@ def strategy():
         stdio = draw(st.sampled_from(["pipe", "pipe", "null", "closed"]))
         # unflushed data in the caller's own stdout buffer is part of its state (only the stdout output may push it out)
         pending = stdio != "closed" and cfg["kind"] != "stdout" and draw(st.sampled_from([False, True]))
-        return {"cfg": cfg, "feats": feats, "kind": kind, "argv": argv, "envp": envp, "n": n, "stdio": stdio, "long": False, "pending": pending}
+        # the caller's own environment (what getenv() sees) with values a data source may be tempted to "clean up": several lines,
+        # trailing blanks, control bytes -- and a format that names them
+        procenv = None
+        if cfg.get("ini") is not None and draw(st.sampled_from([False, False, True])):
+            procenv = [b"HOME=/root", b"ML=" + draw(st.sampled_from([b"line one\nline two", b"a\r\nb\n", b"\nleading", b"tab\tand blank  ", b"x=y=z", b"\x01\x7f\xff"])),
+                       b"EMPTY=", b"PATH=/usr/bin:/bin"]
+            cfg = dict(cfg, ini=cfg["ini"] + b"message_format = %{env:ML}|%{env:EMPTY}|%{env:HOME}|%{cmdline}\n")
+            feats.append("caller-environment-named-in-format")
+        return {"cfg": cfg, "feats": feats, "kind": kind, "argv": argv, "envp": envp, "n": n, "stdio": stdio, "long": False, "pending": pending, "procenv": procenv}
     return case()
 
 
@@ -94,6 +102,8 @@ def evaluate(env, c):
         ops += gen.cfg_ops(c["cfg"], out)
         if c.get("pending") and b"stdout" not in (c["cfg"]["ini"] or b""):
             ops.append(drv.op("w", b"bytes the caller has not flushed yet"))
+        if c.get("procenv"):
+            ops.append(drv.op_env(c["procenv"]))
         ops.append(drv.op("P"))         # baseline before the library has ever run in this process
         for i in range(WARMUP + n):
             ops.append(drv.op_exec(c["kind"], b"/bin/prog", c["argv"], c["envp"], ret=-1, err=2, snap=True))
@@ -162,7 +172,7 @@ def classify(c):
 
 
 def sample(c):
-    return {"ini": c["cfg"]["ini"], "kind": c["kind"], "argv": c["argv"], "envp": c["envp"], "n": c["n"], "stdio": c["stdio"]}
+    return {"ini": c["cfg"]["ini"], "kind": c["kind"], "argv": c["argv"], "envp": c["envp"], "n": c["n"], "stdio": c["stdio"], "caller_environment": c.get("procenv")}
 
 
 # ------------------------------------------------------------------ error paths reached by injected I/O failures
